@@ -585,6 +585,7 @@ type HarnessResult struct {
 	Wall        time.Duration
 	Truncated   bool
 	Fallback    int
+	DupViolations int
 	CrossChecked  int
 	CrossDisagree int
 	CrossUnknown  int
@@ -606,6 +607,7 @@ func (e *Engine) Explore(cfg HarnessConfig) *HarnessResult {
 		cfg.MaxPaths = 20000
 	}
 	var mu sync.Mutex
+	labelsSeen := map[string]bool{}
 	cond := sync.NewCond(&mu)
 	queue := [][]Decision{nil}
 	active := 0
@@ -680,7 +682,16 @@ func (e *Engine) Explore(cfg HarnessConfig) *HarnessResult {
 						res.Incomplete = append(res.Incomplete, pr.Kind.String()+": "+pr.Msg)
 					}
 				}
-				res.Violations = append(res.Violations, px.violations...)
+				for _, v := range px.violations {
+					// keep one violation per assertion label: further paths failing the same
+					// assertion add nothing and must not stop the exploration early
+					if !labelsSeen[v.Label] {
+						labelsSeen[v.Label] = true
+						res.Violations = append(res.Violations, v)
+					} else {
+						res.DupViolations++
+					}
+				}
 				if len(res.Samples) < 5 && (pr.Kind == endOK) {
 					res.Samples = append(res.Samples, decString(pr.Decisions))
 				}
